@@ -201,6 +201,19 @@ def chain_ok(ctx, name, version, b):
                 if not set(cur[z][l]) <= set(prims_prev[z].get(l, [])):
                     ctx.violation('manip.truhlar_calendarize', 'chain', 'month %s is not a subset of the previous month (element %s)' % (month, z), replay)
         prims_prev = cur
+    # the months one after the other on ONE dictionary, as a caller does who keeps the aug basis and derives the calendar from it:
+    # each month is what it is on a fresh copy
+    kept = copy.deepcopy(b)
+    for k, month in enumerate(MONTHS):
+        if k > maxam:
+            break
+        r1 = impl.call(manip.truhlar_calendarize, kept, month)
+        r2 = impl.call(manip.truhlar_calendarize, copy.deepcopy(b), month)
+        ctx.case((name, version, month, 'kept'), True, 'truhlar-kept-dictionary:' + month)
+        if r1 != r2:
+            ctx.violation('manip.truhlar_calendarize', 'kept-dictionary', 'month %s derived from a dictionary that was calendarised before (%s) differs from the month derived from a fresh copy'
+                          % (month, ', '.join(MONTHS[:k]) or 'nothing'), {'kind': 'truhlar', 'name': name, 'version': version, 'month': month})
+            break
 
 
 def work_store(ctx, item):
